@@ -34,7 +34,8 @@ func init() {
 		Gen:   genC17,
 		Rule: "API definitions drawn from the scenario tape: constructor in {Get, Delete, Post/Put/Patch JSON, Post/Put/Patch multipart, generic APIMakeDoNewRequest* with any method} x relative template with 0..4 placeholders x PathParam (missing, extra, multiple keys, printable values) " +
 			"x body x DefaultHeader x fault in {none, serializer error, transport error, torn body, empty body, malformed JSON, deserializer returning (nil, err), missing multipart file}; the returned MonadIO is evaluated 0..3 times via Eval or Subscribe on a handler; " +
-			"a reference request builder gives method/URL/header/body; recorded requests == evaluations; failures surface as Err, never as a panic; non-trivial = >=1 evaluation with >=1 placeholder or an injected fault; distinct = distinct (definition, params, fault, evaluations)",
+			"a reference request builder gives method/URL/header/body; recorded requests == evaluations; failures surface as Err, never as a panic; non-trivial = >=1 evaluation with >=1 placeholder or an injected fault; distinct = distinct (definition, params, fault, evaluations)" +
+			" Later additions: FlatMap composition of the API's MonadIO, default header that already names a Content-Type, empty non-nil default header, interceptor refusal as a fault, timeout settings up to MaxInt64, concurrent JSON neighbour.",
 		Real:        []string{"network.SimpleAPIDef + APIMake* constructors", "network.SimpleHTTPDef", "net/http.Client", "encoding/json", "mime/multipart", "fpgo.MonadIODef", "fpgo.HandlerDef"},
 		Stub:        []string{"http.RoundTripper (the network)", "response body reader (fails once the request context is cancelled, as net/http does)", "serializer / deserializer wrappers (fault injection)", "goroutine scheduler"},
 		Assumptions: []string{"multipart bodies are compared as parsed fields/files because Go map iteration randomises the part order", "path parameter values are drawn from characters that are valid unescaped in a URL path"},
